@@ -134,7 +134,19 @@ func (c *posChecker) lit(l *ast.Lit, field string) {
 		return
 	}
 	if c.m.cont {
-		return // text inside line continuations is excluded
+		// text inside line continuations is excluded: only the first
+		// character is checked, and only when it is not itself part of a
+		// continuation
+		i := c.m.index(l.ValuePos)
+		rs := []rune(l.Value)
+		if i < 0 || i > len(c.m.src) {
+			c.fail("position of " + field + " is outside the source")
+			return
+		}
+		if len(rs) > 0 && i < len(c.m.src) && rs[0] != '\\' && c.m.src[i] != '\\' {
+			nd.Assert(c.m.src[i] == rs[0], "position of "+field+" does not designate its token")
+		}
+		return
 	}
 	c.spells(l.ValuePos, l.Value, field)
 }
